@@ -56,34 +56,29 @@ Theorem C08_ignored_client_not_counted : forall ev q st,
 Proof. exact ignored_client_not_counted. Qed.
 Print Assumptions C08_ignored_client_not_counted.
 
-(** Relation to the request precedence of C04.  The full statement
-    [ignored_client_never_stored_statement] (the client that [acf_find]
-    attributes the request to is marked => nothing recorded) is REFUTED by the
-    code as it is (known finding C08-maclike-clientid-resolved-as-mac) ... *)
-Theorem C08_ignored_client_never_stored_refuted : ~ ignored_client_never_stored_statement.
-Proof. exact ignored_client_never_stored_refuted. Qed.
-Print Assumptions C08_ignored_client_never_stored_refuted.
-
-(** ... and holds whenever the ClientID is not also the spelling of a stored MAC. *)
-Theorem C08_ignored_client_never_stored_partial : forall ev q st u c,
+(** Relation to the request precedence of C04: a request that [acf_find]
+    (ClientID, exact address, longest containing prefix, lease MAC) attributes
+    to a client marked to be ignored is recorded nowhere.  (Refuted before the
+    repair of finding C08-maclike-clientid-resolved-as-mac.) *)
+Theorem C08_ignored_client_never_stored : forall ev q st u c,
   find_by_cid (e_ix ev) [] = None ->
-  clientid_not_a_stored_mac (e_ix ev) q ->
   acf_find (e_ix ev) (e_dhcp ev) (q_cid q) (q_addr q) = Some u -> deref (e_ix ev) u = Some c ->
   (c_ignore_qlog c = true -> st_mem (process ev q st) = st_mem st) /\
   (c_ignore_stats c = true -> st_stats (process ev q st) = st_stats st).
-Proof. exact ignored_client_never_stored_partial. Qed.
-Print Assumptions C08_ignored_client_never_stored_partial.
+Proof. exact ignored_client_never_stored. Qed.
+Print Assumptions C08_ignored_client_never_stored.
 
-Example C08_partial_premises_satisfiable :
+Example C08_never_stored_premises_satisfiable :
   find_by_cid wit_ix [] = None /\
-  clientid_not_a_stored_mac wit_ix (wit_query [] None) /\
-  acf_find wit_ix (fun _ => None) [] ([192;168;1;5], []) = Some 1 /\
+  acf_find wit_ix (fun _ => None) wit_cid ([192;168;1;5], []) = Some 1 /\
+  process (wit_env true) (wit_query wit_cid (Some wit_mac)) empty_store = empty_store /\
+  process (wit_env false) (wit_query wit_cid (Some wit_mac)) empty_store = empty_store /\
   process (wit_env true) (wit_query [] None) empty_store = empty_store /\
   process (wit_env false) (wit_query [] None) empty_store = empty_store /\
   all_log (process (wit_env true)
              {| q_name := [79;75;46]; q_any := false; q_addr := ([10;1;2;3], []); q_cid := []; q_cid_mac := None |}
              empty_store) = [([111;107], [10;1;0;0], [])].
-Proof. exact partial_premises_satisfiable. Qed.
+Proof. exact never_stored_premises_satisfiable. Qed.
 
 (** The reading of the repaired defect #9 (decide on the anonymised address)
     lets the ignored client through; the model's does not. *)
